@@ -71,14 +71,20 @@ func hashListText(ver int, tag string) string {
 	return b.String()
 }
 
-func servicesText(ver int) string {
+func servicesText(ver int, invalidEntry bool) string {
 	var rules []string
 	for j := 0; j < markers; j++ {
 		rules = append(rules, "||"+marker(j, ver, "svc")+"^")
 	}
-	b, _ := json.Marshal(map[string]any{"blocked_services": []map[string]any{
+	svcs := []map[string]any{
 		{"id": "svc_a", "name": "Service A", "rules": rules},
-	}})
+	}
+	if invalidEntry {
+		// An entry the client cannot accept next to a good one: the update
+		// of the service list fails as a whole.
+		svcs = append(svcs, map[string]any{"id": "bad service id!", "name": "Broken", "rules": []string{"||broken.test^"}})
+	}
+	b, _ := json.Marshal(map[string]any{"blocked_services": svcs})
 
 	return string(b)
 }
@@ -562,7 +568,11 @@ func runC13(s *kernel.Sim, cfg string) {
 			// entries and changes its invalid ones.
 			index = indexText(t, l.nLists)
 			l.publish("/index.json", index, r, "rule_lists.json")
-			l.publish("/services.json", servicesText(r), r, "services.json")
+			svcInvalid := r > 1 && t.Chance(1, 6, "services-invalid-entry")
+			if svcInvalid {
+				s.Fault("services-index-invalid-entry")
+			}
+			l.publish("/services.json", servicesText(r, svcInvalid), r, "services.json")
 			for k := 0; k < l.nLists; k++ {
 				l.publish(listPath(k), ruleListText(r, fmt.Sprintf("l%d", k)), r, l.cacheFileOf(listPath(k)))
 			}
@@ -603,6 +613,9 @@ func runC13(s *kernel.Sim, cfg string) {
 
 			failed := func(path string) bool {
 				f, asked := l.roundFaults[path]
+				if path == "/services.json" && svcInvalid {
+					return true
+				}
 
 				return !asked || (f != simhttp.OK && f != simhttp.SlowBody)
 			}
